@@ -65,6 +65,9 @@ func c10Atoms() []string {
 		"- command: zzzzzzzzzzzzzzzzzzzzzzzzzzzzzzzzzzzzzzzzzzzzzzzzzzzzzzzzzzzzzzzzzzzzzzzzzzzzzzzzzzzzzzzzzzzzzzzzzzzzzzzzzzzzz\n",
 		"  - command: indented\n", "-command: nospace\n", "- command:x\n", "- : empty key\n", "? complex\n: key\n",
 		"- command: dup\n- command: dup\n- command: dup\n",
+		// Unicode white space, raw and as YAML escapes (no-break space, next line, line / paragraph separator, ideographic space ...)
+		"- command: \"a\\_b\\Nc\\Ld\\Pe\"\n  description: \"x\u00a0y\u3000z\"\n  keywords: [\"k\u2003w\", \"\u205f\"]\n",
+		"- command: nb\u00a0sp\u1680og\u202fnn\n  description: \u2028\u2029\n",
 	}
 }
 
@@ -76,6 +79,7 @@ func c10Queries() []string {
 	return []string{
 		"zi", "zip", "x", "a", "\x00", "zi\x00", "\xff", strings.Repeat("a", 1000), string(mixed), "?", "-", "...", "İ", "ß", "\U0001F600",
 		"a b", " ", "command", "multi line", "\t", "\\", "[", "(?i)a", "zip compress files", "a\x00b", "dup", "\x1b[31m", "",
+		"a\u00a0b", "\u3000", "x\u2003y z", "\u0085", "zip\u2028compress", "\u200b", "a\u202fb\u205fc\u1680d",
 	}
 }
 
@@ -252,6 +256,9 @@ func c10File(dir string, cs c10Case, only *c10Case, count func(string)) []lib.Vi
 				o := oc.O
 				pv, to := guarded(c10Budget, func() { c10Call(db, cdb, en, q, o) })
 				count("calls")
+				if to {
+					count("hangs")
+				}
 				if pv == nil && !to {
 					continue
 				}
@@ -279,6 +286,9 @@ func c10File(dir string, cs c10Case, only *c10Case, count func(string)) []lib.Vi
 				}
 				seenKey[key] = true
 				vs = append(vs, lib.Violation{Key: key, What: what, Case: cc})
+				if to {
+					return vs // the hung call keeps spinning: no further calls in this process
+				}
 			}
 		}
 	}
@@ -318,6 +328,18 @@ func c10Run(c *lib.Ctx) {
 		for _, v := range vs {
 			c.Violate(v)
 		}
+		hung := c.Rep.Counters["hangs"] > 0
+		for _, v := range vs {
+			if strings.HasPrefix(v.Key, "hang:") {
+				hung = true
+			}
+		}
+		if hung {
+			// the hung call keeps spinning in this process: report and stop this worker
+			c.Rep.Exhaustive = false
+			c.Rep.Cap = "worker stopped after a call exceeded the step budget"
+			return
+		}
 		if si%997 == 5 {
 			c.Sample(map[string]any{"file_atoms": s, "bytes": len(c10Content(s)), "search_calls": c.Rep.Counters["calls"] - before})
 		}
@@ -327,7 +349,7 @@ func c10Run(c *lib.Ctx) {
 func init() {
 	lib.Register(&lib.Check{
 		ID: "C10", Level: "model_checking",
-		Rule:      "every concatenation of <=2 (quick) / <=3 (thorough) atoms of a 76-atom YAML/binary grammar (entries with right and wrong field types, NUL / control / invalid UTF-8 / BOM bytes, anchors, aliases, merge keys, a 9-level alias bomb, tags, truncated quotes, block scalars, duplicate keys, a 66 KB scalar, 1000-deep nesting, documents, non-entries) as database file + missing paths under 6 names (.yml, .yaml, names containing 'yaml:', 'unmarshal', 'permission denied', a missing directory) + a directory path; load classified against yaml.v3's own decode of the same bytes (loads iff it decodes as a list of entries; parse error otherwise; not-found for a missing file); every loaded database searched with 28 hostile queries x 8 option corners (zero value, negative and huge limits, thresholds, non-finite-free boosts incl. 0 / negative / 1e300, odd platforms) through SearchUniversal, Search, SearchWithPipelineOptions, SearchWithOptions, SearchWithFuzzy, SearchWithNLP, the cached wrapper, GetSuggestions and the recovery searches; panic, step-budget (20 s watchdog) and allocation oracles. evaluations = loads + search calls; non-trivial = files that loaded and were searched",
+		Rule:      "every concatenation of <=2 (quick) / <=3 (thorough) atoms of a 78-atom YAML/binary grammar (entries with right and wrong field types, NUL / control / invalid UTF-8 / BOM bytes, anchors, aliases, merge keys, a 9-level alias bomb, tags, truncated quotes, block scalars, duplicate keys, a 66 KB scalar, 1000-deep nesting, documents, non-entries, Unicode white space raw and as YAML escapes) as database file + missing paths under 6 names (.yml, .yaml, names containing 'yaml:', 'unmarshal', 'permission denied', a missing directory) + a directory path; load classified against yaml.v3's own decode of the same bytes (loads iff it decodes as a list of entries; parse error otherwise; not-found for a missing file); every loaded database searched with 35 hostile queries (incl. Unicode white space of every class) x 8 option corners (zero value, negative and huge limits, thresholds, non-finite-free boosts incl. 0 / negative / 1e300, odd platforms) through SearchUniversal, Search, SearchWithPipelineOptions, SearchWithOptions, SearchWithFuzzy, SearchWithNLP, the cached wrapper, GetSuggestions and the recovery searches; panic, step-budget (20 s watchdog) and allocation oracles. evaluations = loads + search calls; non-trivial = files that loaded and were searched",
 		Assume:    []string{"yaml.v3's decoder defines 'decodes as a list of command entries'", "step budget 20 s per call stands for 'bounded time' (slowest observed call is milliseconds)"},
 		QuickSecs: 200, ThorSecs: 2400,
 		Run: c10Run,
